@@ -708,6 +708,9 @@ func init() {
 	register(&Check{
 		ID:    "C12",
 		Level: "exploration",
+		// the reference computation assumes every exported span is searchable when a view or the RED job reads:
+		// that rests on the plan's flushes and clock advances, which a shrunk plan therefore keeps
+		Pinned: func(op *plan.Op) bool { return op.Kind == "flush" || op.Kind == "advance" },
 		Rule: "each case is one seeded span forest (2-120 traces, 2-5 services, depth/fan-out by seeded parent choice, statuses, sub-millisecond durations, parent/child clock skew; a fifth of the traces malformed: missing parent, two roots, parent cycle, span exported twice; one case in six holds a trace of 1001-2500 spans) exported over OTLP/HTTP protobuf to the real ingest route in seeded order (parents first, children first, shuffled) and batching (1-5 requests per 5-minute window, flushes and clock advances between them), two arrival windows around the node's own RED job on the fake clock, optional kill/graceful restart before reading. Oracle: trace list over all pages, trace count, span tree per trace, dependency matrix and RED rows equal an independent computation; malformed traces may be refused or partial but never show foreign spans, wrong parents, duplicates, hangs or crashes. distinct = forest shape digests; non-trivial = forest with a malformed or paged element, or more than one request per window",
 		Run: func(c *Ctx) {
 			n := 48
